@@ -1,12 +1,17 @@
 /-
 C02 — supported Vim commands do what Vim does.
-The oracle for this property is real Vim: a recorded corpus (corpus/vim_corpus.json.gz, 212 078 cases)
-that every run replays on vicut. What is *proved* here concerns VimSpec, the documented behaviour of the
-single-line fragment {h l 0 $ x X} with counts, which the run validates against the same corpus: the
-normal-mode cursor invariant, that motions never touch the text, what `x`/`X` remove, and when a count
-equals repetition.
+The oracle for this property is real Vim: a recorded corpus (corpus/vim_corpus.json.gz) that every run replays on
+vicut. What is *proved* here: (1) about VimSpec, the documented behaviour of the single-line fragment
+{h l 0 $ x X} with counts, which the run validates against the same corpus: the normal-mode cursor invariant,
+that motions never touch the text, what `x`/`X` remove, and when a count equals repetition; (2) conformance
+of the vicut model with VimSpec (namespace Conform at the end): on every one-line buffer, cursor and count the
+C08 motion/operator model — the one the correspondence check ties to the real `eval_motion`/`exec_verb` —
+computes exactly VimSpec's result for `[n]h`, `[n]l` (same failure, same column) and leaves exactly VimSpec's
+text for `[n]x` and `[n]X`.
 -/
 import Vicut.Model.VimSpec
+import Vicut.Model.Motions
+import Vicut.Props.C08
 
 namespace Vicut.C02
 open Vicut.VimSpec
@@ -96,3 +101,252 @@ theorem l_at_end_fails (s : VS) (n : Nat) (rest : List VCmd) : run s (.dollar ::
   simp [Nat.not_lt.mp this]
 
 end Vicut.C02
+
+/-! # Conformance of the vicut model with VimSpec on `h` and `l`
+The C08 motion model (`Motions.evalSimple`, tied to the real `eval_motion` by the correspondence check) computes,
+on every one-line buffer, at every normal-mode cursor and for every count, exactly what VimSpec (tied to the
+recorded Vim by the corpus) says `h` and `l` do: the same failure, the same column. -/
+namespace Vicut.Conform
+open Vicut Vicut.VimSpec
+
+/-- the buffer vicut holds for the line: one grapheme per character and the terminator -/
+def bufOf (line : List Char) : List Gr := line.map (fun c => [c]) ++ [['\n']]
+
+def msOf (line : List Char) (cur : Nat) : MS := ⟨bufOf line, cur, true, false, []⟩
+
+theorem bufOf_length (line : List Char) : (bufOf line).length = line.length + 1 := by simp [bufOf]
+
+theorem isNlAt_bufOf (line : List Char) (cur : Nat) (hn : ∀ c ∈ line, c ≠ '\n') (i : Nat) :
+    (msOf line cur).isNlAt i = decide (i = line.length) := by
+  unfold MS.isNlAt msOf bufOf
+  simp only
+  by_cases hlt : i < line.length
+  · have h1 : (line.map (fun c => [c]) ++ [['\n']])[i]? = some [line[i]] := by
+      rw [List.getElem?_append_left (by simpa using hlt)]
+      simp [hlt]
+    have hne : line[i] ≠ '\n' := hn _ (List.getElem_mem hlt)
+    have hd : ¬ i = line.length := by omega
+    simp [h1, isNl, hne, hd]
+  · by_cases heq : i = line.length
+    · subst heq
+      have h1 : (line.map (fun c => [c]) ++ [['\n']])[line.length]? = some ['\n'] := by
+        rw [List.getElem?_append_right (by simp)]
+        simp
+      simp [h1, isNl]
+    · have h1 : (line.map (fun c => [c]) ++ [['\n']])[i]? = none := by
+        apply List.getElem?_eq_none
+        simp; omega
+      simp [h1, heq]
+
+theorem isNlAtGs_bufOf (line : List Char) (hn : ∀ c ∈ line, c ≠ '\n') (i : Nat) :
+    isNlAtGs (bufOf line) i = decide (i = line.length) := by
+  unfold isNlAtGs bufOf
+  by_cases hlt : i < line.length
+  · have h1 : (line.map (fun c => [c]) ++ [['\n']])[i]? = some [line[i]] := by
+      rw [List.getElem?_append_left (by simpa using hlt)]
+      simp [hlt]
+    have hne : line[i] ≠ '\n' := hn _ (List.getElem_mem hlt)
+    have hd : ¬ i = line.length := by omega
+    simp [h1, isNl, hne, hd]
+  · by_cases heq : i = line.length
+    · subst heq
+      have h1 : (line.map (fun c => [c]) ++ [['\n']])[line.length]? = some ['\n'] := by
+        rw [List.getElem?_append_right (by simp)]
+        simp
+      simp [h1, isNl]
+    · have h1 : (line.map (fun c => [c]) ++ [['\n']])[i]? = none := by
+        apply List.getElem?_eq_none
+        simp; omega
+      simp [h1, heq]
+
+theorem max_bufOf (line : List Char) (cur : Nat) : (msOf line cur).max = line.length + 1 := by
+  simp [MS.max, msOf, bufOf_length]
+
+/-- `l` in the vicut model on a one-line buffer: `n` steps right, stopping on the last character. -/
+theorem forwardGo_line (line : List Char) (cur : Nat) (hn : ∀ c ∈ line, c ≠ '\n') (n t : Nat) (ht : t + 1 ≤ line.length) :
+    forwardGo (msOf line cur) false n t = min (t + n) (line.length - 1) := by
+  induction n generalizing t with
+  | zero => simp [forwardGo]; omega
+  | succ n ih =>
+    have hmax := max_bufOf line cur
+    have e1 : (msOf line cur).selecting = false := rfl
+    have e2 : (msOf line cur).excl = true := rfl
+    simp only [forwardGo, e1, e2, Bool.not_false, Bool.true_and, ↓reduceIte, hmax]
+    have hnl_t : (msOf line cur).isNlAt t = false := by rw [isNlAt_bufOf line cur hn]; simp; omega
+    simp only [hnl_t, Bool.false_eq_true, ↓reduceIte]
+    have hmin : min (t + 1) (line.length + 1) = t + 1 := by omega
+    rw [hmin, isNlAt_bufOf line cur hn]
+    by_cases hlast : t + 1 = line.length
+    · simp [hlast]; omega
+    · simp only [hlast, decide_false, Bool.false_eq_true, ↓reduceIte]
+      rw [ih (t + 1) (by omega)]
+      omega
+
+/-- **`[n]l` conforms**: the model fails exactly when VimSpec does, and otherwise lands on VimSpec's column. -/
+theorem l_conforms (line : List Char) (cur n : Nat) (hn : ∀ c ∈ line, c ≠ '\n') (hwf : (VS.mk line cur).WF) (hl : line ≠ [])
+    (hcount : n ≥ 1) :
+    (step ⟨line, cur⟩ (.l n) = none ∧ evalSimple (msOf line cur) .forwardChar n false = .null) ∨
+    (∃ s', step ⟨line, cur⟩ (.l n) = some s' ∧ evalSimple (msOf line cur) .forwardChar n false = .on s'.cur) := by
+  have hlen : line.length ≥ 1 := by cases line with | nil => exact absurd rfl hl | cons _ _ => simp
+  have hc : cur + 1 ≤ line.length := by simp only [VS.WF] at hwf; omega
+  have hgo := forwardGo_line line cur hn n cur hc
+  have e1 : (msOf line cur).selecting = false := rfl
+  have e2 : (msOf line cur).excl = true := rfl
+  have e3 : (msOf line cur).cur = cur := rfl
+  simp only [evalSimple, hgo, e1, e2, e3, Bool.not_false, Bool.true_and, step]
+  by_cases hend : cur + 1 ≥ line.length
+  · left
+    have : min (cur + n) (line.length - 1) = cur := by omega
+    simp [hend, this]
+  · right
+    have hne : min (cur + n) (line.length - 1) ≠ cur := by omega
+    refine ⟨⟨line, min (cur + n) (line.length - 1)⟩, by simp [hend], ?_⟩
+    simp [hne]
+
+/-- `h` in the vicut model on a one-line buffer: `n` steps left, stopping in the first column. -/
+theorem backwardGo_line (line : List Char) (cur : Nat) (hn : ∀ c ∈ line, c ≠ '\n') (n t : Nat) (ht : t + 1 ≤ line.length) :
+    backwardGo (msOf line cur) n t = t - n := by
+  induction n generalizing t with
+  | zero => simp [backwardGo]
+  | succ n ih =>
+    simp only [backwardGo]
+    by_cases h0 : t = 0
+    · simp [h0]
+    · have hnl : (msOf line cur).isNlAt (t - 1) = false := by rw [isNlAt_bufOf line cur hn]; simp; omega
+      simp only [h0, hnl, false_or, Bool.false_eq_true, ↓reduceIte]
+      rw [ih (t - 1) (by omega)]
+      omega
+
+/-- **`[n]h` conforms.** -/
+theorem h_conforms (line : List Char) (cur n : Nat) (hn : ∀ c ∈ line, c ≠ '\n') (hwf : (VS.mk line cur).WF) (hl : line ≠ [])
+    (hcount : n ≥ 1) :
+    (step ⟨line, cur⟩ (.h n) = none ∧ evalSimple (msOf line cur) .backwardChar n false = .null) ∨
+    (∃ s', step ⟨line, cur⟩ (.h n) = some s' ∧ evalSimple (msOf line cur) .backwardChar n false = .on s'.cur) := by
+  have hlen : line.length ≥ 1 := by cases line with | nil => exact absurd rfl hl | cons _ _ => simp
+  have hc : cur + 1 ≤ line.length := by simp only [VS.WF] at hwf; omega
+  have hgo := backwardGo_line line cur hn n cur hc
+  have e3 : (msOf line cur).cur = cur := rfl
+  simp only [evalSimple, hgo, e3, step]
+  by_cases h0 : cur = 0
+  · left; simp [h0]
+  · right
+    refine ⟨⟨line, cur - n⟩, by simp [h0], ?_⟩
+    have : cur - n ≠ cur := by omega
+    simp [this]
+
+/-- `l` under an operator (`x`, `dl`) reaches the terminator: `n` steps right, at most to the end of the line. -/
+theorem forwardGo_line_op (line : List Char) (cur : Nat) (hn : ∀ c ∈ line, c ≠ '\n') (n t : Nat) (ht : t ≤ line.length) :
+    forwardGo (msOf line cur) true n t = min (t + n) line.length := by
+  induction n generalizing t with
+  | zero => simp [forwardGo]; omega
+  | succ n ih =>
+    have hmax := max_bufOf line cur
+    have e1 : (msOf line cur).selecting = false := rfl
+    have e2 : (msOf line cur).excl = true := rfl
+    simp only [forwardGo, e1, e2, Bool.not_false, Bool.true_and, ↓reduceIte, hmax, Bool.not_true, Bool.false_and,
+      Bool.false_eq_true]
+    rw [isNlAt_bufOf line cur hn]
+    by_cases hend : t = line.length
+    · simp [hend]
+    · simp only [hend, decide_false, Bool.false_eq_true, ↓reduceIte]
+      have hmin : min (t + 1) (line.length + 1) = t + 1 := by omega
+      rw [hmin, ih (t + 1) (by omega)]
+      omega
+
+theorem flatten_singletons (l : List Char) : (l.map (fun c => [c])).flatten = l := by
+  induction l with
+  | nil => rfl
+  | cons a t ih => simp [ih]
+
+/-- **`[n]x` conforms on the text**: deleting with the model's `l`-under-an-operator range removes exactly the
+characters VimSpec says `[n]x` removes, and the line terminator stays. -/
+theorem x_conforms (line : List Char) (cur n : Nat) (hn : ∀ c ∈ line, c ≠ '\n') (hwf : (VS.mk line cur).WF) (hl : line ≠ [])
+    (hcount : n ≥ 1) (reg : RegName) (regs : Regs) :
+    ∃ out, execVerbText .delete (evalSimple (msOf line cur) .forwardChar n true) reg (msOf line cur).lb regs = .ok out ∧
+      out.text = (line.take cur ++ line.drop (cur + n)) ++ ['\n'] := by
+  have hlen : line.length ≥ 1 := by cases line with | nil => exact absurd rfl hl | cons _ _ => simp
+  have hc : cur + 1 ≤ line.length := by simp only [VS.WF] at hwf; omega
+  have hgo := forwardGo_line_op line cur hn n cur (by omega)
+  have e1 : (msOf line cur).selecting = false := rfl
+  have e2 : (msOf line cur).excl = true := rfl
+  have e3 : (msOf line cur).cur = cur := rfl
+  have hp : min (cur + n) line.length ≠ cur := by omega
+  have hev : evalSimple (msOf line cur) .forwardChar n true = .on (min (cur + n) line.length) := by
+    simp [evalSimple, hgo, e1, e2, e3, hp]
+  rw [hev]
+  -- the range the operator gets
+  have hlb : (msOf line cur).lb = ⟨bufOf line, cur, true⟩ := rfl
+  rw [hlb]
+  have hgt : min (cur + n) line.length > cur := by omega
+  have hnotnl : isNlAtGs (bufOf line) (min (cur + n) line.length - 1) = false := by
+    rw [isNlAtGs_bufOf line hn]; simp; omega
+  have hord : ordered cur (min (cur + n) line.length) = (cur, min (cur + n) line.length) := by
+    unfold ordered; split <;> simp <;> omega
+  have hrange : rangeFromMotion ⟨bufOf line, cur, true⟩ (.on (min (cur + n) line.length)) = some (cur, min (cur + n) line.length) := by
+    simp [rangeFromMotion, hgt, hord, stopBeforeTerminator, hnotnl]
+  have hspan : spansLines (bufOf line) cur (min (cur + n) line.length) = false := by
+    unfold spansLines
+    simp only [List.any_eq_false, List.mem_range]
+    intro k hk
+    rw [isNlAtGs_bufOf line hn]; simp; omega
+  have hop : operatorRange .delete ⟨bufOf line, cur, true⟩ (.on (min (cur + n) line.length)) = some (cur, min (cur + n) line.length, false) := by
+    simp [operatorRange, hrange, changeEnd, MK.linewise, OpK.isChange, hspan]
+  have hs : cur ≤ min (cur + n) line.length := by omega
+  have he : min (cur + n) line.length ≤ (bufOf line).length := by rw [bufOf_length]; omega
+  refine ⟨_, C08.delete_frame ⟨bufOf line, cur, true⟩ _ reg regs cur (min (cur + n) line.length) false rfl hop hs he, ?_⟩
+  simp only
+  -- the text that is left
+  have htake : (bufOf line).take cur = (line.take cur).map (fun c => [c]) := by
+    unfold bufOf
+    rw [List.take_append_of_le_length (by simp; omega), List.map_take]
+  have hdrop : (bufOf line).drop (min (cur + n) line.length) = (line.drop (min (cur + n) line.length)).map (fun c => [c]) ++ [['\n']] := by
+    unfold bufOf
+    rw [List.drop_append_of_le_length (by simp; omega), List.map_drop]
+  rw [htake, hdrop]
+  have hd : line.drop (min (cur + n) line.length) = line.drop (cur + n) := by
+    by_cases h : cur + n ≤ line.length
+    · rw [Nat.min_eq_left h]
+    · rw [Nat.min_eq_right (by omega), List.drop_of_length_le (Nat.le_refl _), List.drop_of_length_le (by omega)]
+  rw [hd]
+  simp only [List.flatten_append, flatten_singletons, List.flatten_cons, List.flatten_nil, List.append_nil, List.append_assoc]
+
+/-- **`[n]X` conforms on the text** (away from column 0, where both fail). -/
+theorem X_conforms (line : List Char) (cur n : Nat) (hn : ∀ c ∈ line, c ≠ '\n') (hwf : (VS.mk line cur).WF) (hl : line ≠ [])
+    (hcount : n ≥ 1) (h0 : cur ≠ 0) (reg : RegName) (regs : Regs) :
+    ∃ out, execVerbText .delete (evalSimple (msOf line cur) .backwardChar n true) reg (msOf line cur).lb regs = .ok out ∧
+      out.text = (line.take (cur - n) ++ line.drop cur) ++ ['\n'] := by
+  have hlen : line.length ≥ 1 := by cases line with | nil => exact absurd rfl hl | cons _ _ => simp
+  have hc : cur + 1 ≤ line.length := by simp only [VS.WF] at hwf; omega
+  have hgo := backwardGo_line line cur hn n cur hc
+  have e3 : (msOf line cur).cur = cur := rfl
+  have hp : cur - n ≠ cur := by omega
+  have hev : evalSimple (msOf line cur) .backwardChar n true = .on (cur - n) := by
+    simp [evalSimple, hgo, e3, hp]
+  rw [hev]
+  have hlb : (msOf line cur).lb = ⟨bufOf line, cur, true⟩ := rfl
+  rw [hlb]
+  have hngt : ¬ (cur - n > cur) := by omega
+  have hord : ordered cur (cur - n) = (cur - n, cur) := by
+    unfold ordered; split <;> simp <;> omega
+  have hrange : rangeFromMotion ⟨bufOf line, cur, true⟩ (.on (cur - n)) = some (cur - n, cur) := by
+    simp [rangeFromMotion, hngt, hord]
+  have hop : operatorRange .delete ⟨bufOf line, cur, true⟩ (.on (cur - n)) = some (cur - n, cur, false) := by
+    simp [operatorRange, hrange, changeEnd, MK.linewise, OpK.isChange, MK.forwardFrom, hngt]
+  have hs : cur - n ≤ cur := by omega
+  have he : cur ≤ (bufOf line).length := by rw [bufOf_length]; omega
+  refine ⟨_, C08.delete_frame ⟨bufOf line, cur, true⟩ _ reg regs (cur - n) cur false rfl hop hs he, ?_⟩
+  simp only
+  have htake : (bufOf line).take (cur - n) = (line.take (cur - n)).map (fun c => [c]) := by
+    unfold bufOf
+    rw [List.take_append_of_le_length (by simp; omega), List.map_take]
+  have hdrop : (bufOf line).drop cur = (line.drop cur).map (fun c => [c]) ++ [['\n']] := by
+    unfold bufOf
+    rw [List.drop_append_of_le_length (by simp; omega), List.map_drop]
+  rw [htake, hdrop]
+  simp only [List.flatten_append, flatten_singletons, List.flatten_cons, List.flatten_nil, List.append_nil, List.append_assoc]
+
+example : (VS.mk ['a', 'b', 'c'] 0).WF ∧ (∀ c ∈ ['a', 'b', 'c'], c ≠ '\n') := by
+  refine ⟨by simp [VS.WF], ?_⟩
+  intro c hc; simp at hc; rcases hc with rfl | rfl | rfl <;> decide
+
+end Vicut.Conform
